@@ -117,63 +117,6 @@ mod verif_kani_float {
     #[kani::proof]
     #[kani::unwind(9)]
     #[kani::stub(<dashu::integer::IBig as std::convert::TryFrom<f64>>::try_from, ibig_from_f64_stub)]
-    fn exp_rnd_i_big_branch() {
-        let f = any_f64();
-        kani::assume(f.is_finite());
-        kani::assume(!(f >= -36028797018963968.0 && f < 36028797018963968.0));
-        let mut arena = Arena::new().unwrap();
-        let n = Number::Float(OrderedFloat(f));
-        match rnd_i(&n, &mut arena) {
-            Ok(Number::Integer(_)) => (),
-            _ => assert!(false),
-        }
-        std::mem::forget(arena); // dropping the arena walks its slabs: irrelevant here and very costly for CBMC
-    }
-
-    #[kani::proof]
-    #[kani::unwind(9)]
-    fn exp_arena_only() {
-        let arena = Arena::new().unwrap();
-        std::mem::forget(arena);
-    }
-
-    #[kani::proof]
-    #[kani::unwind(9)]
-    fn exp_rnd_i_fix_zeroed_arena() {
-        let f = any_f64();
-        kani::assume(f >= -36028797018963968.0 && f < 36028797018963968.0);
-        let mut arena = Arena::new().unwrap();
-        let n = Number::Float(OrderedFloat(f));
-        match rnd_i(&n, &mut arena) {
-            Ok(Number::Fixnum(x)) => {
-                let v = x.get_num();
-                let xf = v as f64;
-                assert!(xf <= f);
-                assert!(f - xf < 1.0);
-            }
-            _ => assert!(false),
-        }
-        std::mem::forget(arena); // dropping the arena walks its slabs: irrelevant here and very costly for CBMC
-    }
-
-    #[kani::proof]
-    #[kani::unwind(9)]
-    fn exp_rnd_i_nonfinite_zeroed_arena() {
-        let f = any_f64();
-        kani::assume(!f.is_finite());
-        let mut arena = Arena::new().unwrap();
-        let n = Number::Float(OrderedFloat(f));
-        match rnd_i(&n, &mut arena) {
-            Err(EvalError::FloatOverflow) => assert!(f.is_infinite()),
-            Err(EvalError::Undefined) => assert!(f.is_nan()),
-            _ => assert!(false),
-        }
-        std::mem::forget(arena); // dropping the arena walks its slabs: irrelevant here and very costly for CBMC
-    }
-
-    #[kani::proof]
-    #[kani::unwind(9)]
-    #[kani::stub(<dashu::integer::IBig as std::convert::TryFrom<f64>>::try_from, ibig_from_f64_stub)]
     fn rnd_i_nonfinite() {
         let f = any_f64();
         kani::assume(!f.is_finite());
@@ -190,8 +133,8 @@ mod verif_kani_float {
 '''},
     "harnesses": {
         "classify_float_spec": {}, "float_fn_to_f_spec": {}, "add_f_spec": {}, "mul_f_spec": {}, "div_f_spec": {}, "number_float_predicates": {},
-        "rnd_i_float": {"stubs": ["try_from"], "bound": "operand domain |f| <= 2^67 (beyond it the result is a bignum on every path); complete over that domain"},
+        "rnd_i_float": {"stubs": ["try_from"], "bound": "operand domain |f| <= 2^56 (beyond it the result is a bignum on every path); complete over that domain"},
         "rnd_i_nonfinite": {"stubs": ["try_from"]},
-        "exp_arena_only": {}, "exp_rnd_i_big_branch": {}, "exp_rnd_i_fix_zeroed_arena": {}, "exp_rnd_i_nonfinite_zeroed_arena": {},
+
     },
 }
